@@ -10,6 +10,10 @@ using namespace verif;
 static uint64_t g_true_ms = 0;            // true elapsed time, never wraps
 static uint32_t g_base = 0;               // counter value at true time 0
 static inline uint32_t counter_now() { return (uint32_t) (g_base + g_true_ms); }
+// C14: SystemClockLoop does its arithmetic in `unsigned long`, so its counter wraps at ULONG_MAX (2^32 on the
+// target boards, 2^64 on this host): the loop driver uses a full-width base, the shadow SystemClock the low bits.
+static unsigned long g_base_ul = 0;
+static inline unsigned long counter_now_ul() { return g_base_ul + (unsigned long) g_true_ms; }
 
 static const acetime_t kInv = Clock::kInvalidSeconds;
 
@@ -201,7 +205,7 @@ class SystemClockLoopTest_loop {   // friend of SystemClockLoop: read FSM state 
 class TLoop: public SystemClockLoop {
   public:
     TLoop(Clock* r, Clock* b, uint16_t s, uint16_t i, uint16_t to): SystemClockLoop(r, b, s, i, to) {}
-    unsigned long clockMillis() const override { return counter_now(); }
+    unsigned long clockMillis() const override { return counter_now_ul(); }
 };
 
 struct Cfg { uint16_t S, I, TO; int wiring; };   // wiring 0: ref==backup, 1: distinct, 2: no backup, 3: no reference
@@ -220,8 +224,8 @@ static std::string path_str(const Cfg& cfg, const std::vector<Step>& path, size_
 // Executes `path` from a fresh object with all monitors on.  Returns, for the LAST
 // step, whether the reference clock's readiness was consulted (used for sound
 // pruning: if it was not, all outcomes are observationally identical).
-static bool run_path(const Cfg& cfg, const std::vector<Step>& path, uint32_t base, bool record_cov) {
-  g_base = base; g_true_ms = 0;
+static bool run_path(const Cfg& cfg, const std::vector<Step>& path, unsigned long base, bool record_cov) {
+  g_base_ul = base; g_base = (uint32_t) base; g_true_ms = 0;
   LogClock ref, bak;
   Clock* refp = cfg.wiring == 3 ? nullptr : &ref;
   Clock* bakp = cfg.wiring == 0 ? (Clock*) &ref : (cfg.wiring == 1 ? (Clock*) &bak : nullptr);
@@ -258,6 +262,7 @@ static bool run_path(const Cfg& cfg, const std::vector<Step>& path, uint32_t bas
     sys.loop();
     uint8_t st1 = SystemClockLoopTest_loop::status(sys); uint16_t p1 = SystemClockLoopTest_loop::period(sys);
     CNT.add("c14.loop_calls");
+    if (counter_now_ul() < g_base_ul) CNT.add("c14.loop_calls_after_counter_wrap");
     if (record_cov) {
       char b[64]; snprintf(b, sizeof b, "%u/%u", st1, p1); g_states[b]++;
       snprintf(b, sizeof b, "%u/%u->%u/%u", st0, p0, st1, p1); g_edges[b]++;
@@ -341,7 +346,8 @@ static bool run_path(const Cfg& cfg, const std::vector<Step>& path, uint32_t bas
       if (since > bound && !sent) { key = "c14:no-progress"; what = "no new request within the bounded time"; }
     }
     if (!key.empty()) {
-      J j; j.str("path", path_str(cfg, path, i + 1)).num("step", (long long) i).num("fsm_state", st1).num("period", p1).num("now_ms", (long long) g_true_ms).num("clock", sys.getNow()).num("shadow", shadow.getNow());
+      char bb[40]; snprintf(bb, sizeof bb, "%lu", g_base_ul);
+      J j; j.str("path", path_str(cfg, path, i + 1)).str("counter_base", bb).num("step", (long long) i).num("fsm_state", st1).num("period", p1).num("now_ms", (long long) g_true_ms).num("clock", sys.getNow()).num("shadow", shadow.getNow());
       witness(key, what, j);
       return consulted_last;
     }
@@ -360,7 +366,19 @@ static std::vector<uint32_t> advances_for(const Cfg& c) {
 }
 
 static long long g_nodes = 0;
-static void dfs(const Cfg& cfg, std::vector<Step>& path, int depth, const std::vector<uint32_t>& advs, uint32_t base) {
+// counter value at true time 0: far from any wrap, near the 2^31 mark, or placed so that the counter wraps
+// shortly after the first request / during the first retry wait / after the first sync period
+static unsigned long base_for(const Cfg& cfg, uint32_t firstAdv, int cls) {
+  switch (cls % 5) {
+    case 0: return 5000UL;
+    case 1: return 0x7FFF0000UL;
+    case 2: return 0UL - (unsigned long) firstAdv - (unsigned long) (cfg.TO / 2) - 1UL;
+    case 3: return 0UL - (unsigned long) firstAdv - (unsigned long) cfg.I * 1000UL + 17UL;
+    default: return 0UL - (unsigned long) firstAdv - (unsigned long) cfg.S * 1000UL - 3UL;
+  }
+}
+
+static void dfs(const Cfg& cfg, std::vector<Step>& path, int depth, const std::vector<uint32_t>& advs, unsigned long base) {
   if ((int) path.size() == depth) return;
   for (uint32_t adv : advs) {
     for (uint8_t o = 0; o < 4; o++) {
@@ -392,7 +410,7 @@ static void c14_enum(int shard, int nshards, int depth) {
     std::vector<uint32_t> advs = advances_for(cfg);
     for (size_t fa = 0; fa < advs.size(); fa++, item++) {
       if (item % nshards != shard) continue;
-      uint32_t base = (ci % 2) ? 0x7FFF0000u : 5000u;
+      unsigned long base = base_for(cfg, advs[fa], item);
       std::vector<Step> path;
       for (uint8_t o = 0; o < 4; o++) {
         path.push_back({advs[fa], o});
@@ -423,7 +441,7 @@ static void c14_random(int shard, long long seed, long long walks, int len) {
       if (style == 1) o = 0; else if (style == 2) o = rng.below(3) ? 3 : 0; else if (style == 3) o = rng.below(5) ? (1 + rng.below(2)) : rng.below(4); else o = rng.below(4);
       path.push_back({adv, o});
     }
-    run_path(cfg, path, rng.below(2) ? 5000u : 0x7FFF0000u, true);
+    run_path(cfg, path, rng.below(3) == 0 ? (0UL - 1UL - (unsigned long) rng.below(200000)) : base_for(cfg, path[0].adv, (int) rng.below(5)), true);
     CNT.add("c14.random_walks");
     if (w < 2) { J j; j.str("kind", "random-walk").str("path", path_str(cfg, path, 12)); sample(j, 5); }
   }
